@@ -261,8 +261,13 @@ fn check_image(t: &mut Tape) -> Outcome {
             _ => spt,
         }
     };
-    let w = t.range(1, 9);
-    let h = t.range(1, 6);
+    let w = match t.below(8) {
+        0 => 0,
+        1 => t.range(10, 70),
+        2 => t.range(100, 300),
+        _ => t.range(1, 9),
+    };
+    let h = if t.chance(20) { 0 } else { t.range(1, 6) };
     let mismatch = 9 - t.below(10);
     let (mut dw, mut dh) = (w, h);
     if !inplace {
